@@ -277,7 +277,32 @@ class Tri(cache.Recursion, length=3):
             index += 1
 
 
-RECS = dict(Fib=Fib, Count=Count, Tri=Tri)
+class Held(cache.Recursion, length=1):
+    '''infinite; keeps a log context open ACROSS its yields (the pattern `with log.context('newton'): while True: yield ...` of the classic solvers)'''
+
+    def __init__(self, start):
+        self.start = start
+
+    def resume_index(self, history, index):
+        if HOOK is not None:
+            HOOK('history', ('Held', self.start, index, tuple(float(h) for h in history)))
+        return self._gen(history, index)
+
+    def _gen(self, history, index):
+        x = float(history[-1]) + 1.5 if history else float(self.start)
+        with treelog.context('held'):
+            while True:
+                _enter(f'Held/{self.start}/{index}')
+                try:
+                    treelog.info('item', index)
+                finally:
+                    _leave(f'Held/{self.start}/{index}')
+                yield x
+                x += 1.5
+                index += 1
+
+
+RECS = dict(Fib=Fib, Count=Count, Tri=Tri, Held=Held)
 
 
 def model_sequence(name, args, m):
@@ -291,6 +316,9 @@ def model_sequence(name, args, m):
         n, scale = (list(args) + [1.0])[:2]
         for i in range(min(m, n)):
             out.append(numpy.array([i * scale, i + 0.5]))
+    elif name == 'Held':
+        for i in range(m):
+            out.append(float(args[0]) + 1.5 * i)
     elif name == 'Tri':
         seed, step = (list(args) + [1])[:2]
         for i in range(m):
